@@ -22,6 +22,7 @@ const FIXED_KEYS: &[(char, bool)] = &[
     ('k', false), ('r', false), ('v', false), ('a', false), ('i', false), ('[', false), ('u', false),
     ('/', false), ('>', false), (',', false), ('\'', false), ('1', false), ('k', true), ('r', true),
     ('z', true), ('K', true), ('j', true), ('\\', false),
+    ('e', true), // a key whose layout value is empty: must change nothing, also right after a word ended
 ];
 
 fn is_terminating(ev: &Ev) -> bool {
